@@ -105,6 +105,7 @@ type SimNode struct {
 	peersAtLeave    []*peers.Peer
 	constructing    bool
 	isObserver      bool
+	explicitSuspend bool
 	ownScanned      int
 	ownPayload      map[string]int
 	sigChecked      map[string]bool
@@ -537,4 +538,8 @@ func bodyDiff(a *hg.BlockBody, aState []byte, aReceipts int, b *hg.BlockBody) st
 		out += fmt.Sprintf("receipts %d/%d; ", aReceipts, len(b.InternalTransactionReceipts))
 	}
 	return out
+}
+
+func newPeerFromKey(k *ecdsa.PrivateKey) *peers.Peer {
+	return peers.NewPeer(keys.PublicKeyHex(&k.PublicKey), "stranger", "stranger")
 }
